@@ -9,7 +9,7 @@ import (
 )
 
 // C20: Clone returns an equal, fully independent copy.
-// opcode 2001: desc payload padsize.  Observable: the clone, and for CSRC / each extension value /
+// opcode 2001: desc payload padsize;  2002: desc payload padsize [pre-ops] (Set/Del calls applied before Clone).  Observable: the clone, and for CSRC / each extension value /
 // payload whether the clone's slice is disjoint from the original's memory (1) or shares it (0).
 
 func u32Overlap(a, b []uint32) bool {
@@ -26,7 +26,28 @@ func snapshotPacket(p *rtp.Packet) string {
 	return Render(vPacket(p)) + fmt.Sprintf("|%x|%v", b, err)
 }
 
-func runClone(d hdrDesc, payload []byte, pad int) Outcome {
+// applyPreOps runs Set/Del operations ([1 id value] / [2 id]) on a header before it is cloned, so
+// that the clone is taken of a header with a history (e.g. an emptied element list that still has
+// capacity), not only of freshly built ones.
+func applyPreOps(h *rtp.Header, pre []Tok) {
+	for _, op := range pre {
+		l := tokList(op)
+		if tokInt(l[0]) == 1 {
+			_ = h.SetExtension(uint8(tokInt(l[1])), tokBytes(l[2]))
+		} else {
+			_ = h.DelExtension(uint8(tokInt(l[1])))
+		}
+	}
+}
+
+func clonePayload(payload []byte) []byte {
+	if payload == nil {
+		return nil // a packet without payload slice, as GeneratePadding builds them
+	}
+	return append([]byte{}, payload...)
+}
+
+func runClone(d hdrDesc, payload []byte, pad int, pre []Tok) Outcome {
 	var o Outcome
 	o.Tags = hdrTags(d)
 	h, err := d.build()
@@ -34,8 +55,15 @@ func runClone(d hdrDesc, payload []byte, pad int) Outcome {
 		o.Impl = T(98, Unit)
 		return o
 	}
+	applyPreOps(&h, pre)
 	h.PayloadOffset = 7
-	orig := &rtp.Packet{Header: h, Payload: append([]byte{}, payload...), PaddingSize: byte(pad)}
+	orig := &rtp.Packet{Header: h, Payload: clonePayload(payload), PaddingSize: byte(pad)}
+	if payload == nil {
+		o.Tags = append(o.Tags, "nil payload")
+	}
+	if len(pre) > 0 {
+		o.Tags = append(o.Tags, fmt.Sprintf("pre-ops, %d elements left", len(h.GetExtensionIDs())))
+	}
 	var cl *rtp.Packet
 	if pn, what := catch(func() { cl = orig.Clone() }); pn {
 		o.Impl, o.Fail = PanicV(), "Clone panicked: "+what
@@ -81,7 +109,7 @@ func runClone(d hdrDesc, payload []byte, pad int) Outcome {
 		muts = append(muts, mut{fmt.Sprintf("DelExtension(%d)", id), func(p *rtp.Packet) { _ = p.DelExtension(id) }})
 		muts = append(muts, mut{fmt.Sprintf("SetExtension(%d, new value)", id), func(p *rtp.Packet) { _ = p.SetExtension(id, []byte{0x5A}) }})
 	}
-	if d.ext && (d.profile == 0xBEDE || d.profile == 0x1000) {
+	if orig.Extension && (orig.ExtensionProfile == 0xBEDE || orig.ExtensionProfile == 0x1000) {
 		muts = append(muts, mut{"SetExtension(new id)", func(p *rtp.Packet) {
 			for id := uint8(1); id <= 14; id++ {
 				if p.GetExtension(id) == nil {
@@ -93,7 +121,7 @@ func runClone(d hdrDesc, payload []byte, pad int) Outcome {
 	}
 	for _, m := range muts {
 		for side := 0; side < 2; side++ {
-			a := &rtp.Packet{Header: func() rtp.Header { hh, _ := d.build(); return hh }(), Payload: append([]byte{}, payload...), PaddingSize: byte(pad)}
+			a := &rtp.Packet{Header: func() rtp.Header { hh, _ := d.build(); applyPreOps(&hh, pre); return hh }(), Payload: clonePayload(payload), PaddingSize: byte(pad)}
 			b := a.Clone()
 			target, other := a, b
 			if side == 1 {
@@ -112,6 +140,19 @@ func runClone(d hdrDesc, payload []byte, pad int) Outcome {
 				o.Fail = fmt.Sprintf("mutation %q of %s changed the other packet", m.name, map[int]string{0: "the original", 1: "the clone"}[side])
 				_ = who
 			}
+			// then the other side adds an extension of its own: the first side must not see it
+			if other.Extension && (other.ExtensionProfile == 0xBEDE || other.ExtensionProfile == 0x1000) {
+				afterT := snapshotPacket(target)
+				for id := uint8(14); id >= 1; id-- {
+					if other.GetExtension(id) == nil {
+						_ = other.SetExtension(id, []byte{0xC3, 0x3C, 0x01})
+						break
+					}
+				}
+				if snapshotPacket(target) != afterT {
+					o.Fail = fmt.Sprintf("after %q on %s, SetExtension on the other packet changed it (shared element list)", m.name, map[int]string{0: "the original", 1: "the clone"}[side])
+				}
+			}
 		}
 	}
 	return o
@@ -120,18 +161,39 @@ func runClone(d hdrDesc, payload []byte, pad int) Outcome {
 func init() {
 	register(&Prop{
 		ID:       "C20",
-		Rule:     "well-formed packets as in C01 with every field populated; observable = the clone and, per slice, whether its memory is disjoint from the original's; oracle = equality incl. padding size and PayloadOffset, then every single mutation (payload bytes, each CSRC entry, each extension value byte, SetExtension / DelExtension of each id, SetExtension of a new id) applied to the original and to the clone; non-trivial = has CSRCs, an extension or a payload",
+		Rule:     "well-formed packets as in C01 with every field populated, with and without a payload slice (nil), a third of the extension-carrying headers with a Set/Del history before the clone (element list emptied or shrunk); observable = the clone and, per slice, whether its memory is disjoint from the original's; oracle = equality incl. padding size and PayloadOffset, then every single mutation (payload bytes, each CSRC entry, each extension value byte, SetExtension / DelExtension of each id, SetExtension of a new id) applied to the original and to the clone, each followed by a SetExtension on the other side; non-trivial = has CSRCs, an extension or a payload",
 		Quick:    3000,
 		Thorough: 100000,
 		Gen: func(r *RNG, tier string, n int, emit func(op int, toks ...Tok)) {
 			for i := 0; i < n; i++ {
 				c := r.Fork(uint64(i))
 				d, pl, pad := genWfPacket(c)
+				if c.Intn(6) == 0 {
+					pl = nil // no payload slice at all (padding-only packets are built like this)
+				}
+				if c.Intn(3) == 0 && d.ext && (d.profile == 0xBEDE || d.profile == 0x1000) {
+					// a header with a history: delete some or all elements, maybe set one again
+					pre := TList{}
+					for _, e := range d.exts {
+						if c.Intn(4) != 0 {
+							pre = append(pre, TList{TI(2), TI(int64(e.id))})
+						}
+					}
+					if c.Intn(3) == 0 {
+						pre = append(pre, TList{TI(1), TI(int64(1 + c.Intn(14))), TBytes(c.Bytes(1 + c.Intn(4)))})
+					}
+					emit(2002, d.tok(), TB(pl), TI(int64(pad)), pre)
+					continue
+				}
 				emit(2001, d.tok(), TB(pl), TI(int64(pad)))
 			}
 		},
 		Run: func(op int, toks []Tok) Outcome {
-			return runClone(hdrDescFromTok(toks[0]), tokBytes(toks[1]), int(tokInt(toks[2])))
+			var pre []Tok
+			if op == 2002 {
+				pre = tokList(toks[3])
+			}
+			return runClone(hdrDescFromTok(toks[0]), tokBytes(toks[1]), int(tokInt(toks[2])), pre)
 		},
 	})
 }
